@@ -169,6 +169,34 @@ def evaluate(case):
             if not ok:
                 raise Violation("composition-vs-reference", op, f"{what} (keys {list(xx.keys())}, wrapper={bool(case.get('wrapper'))}): {why}",
                                 observed=kd.show(kd.to_dict(r2)), expected=kd.show(exp))
+    counters = {}
+    if case["mode"] == "frac" and ref.d <= 2 and len(ka) <= 3 and (kb is None or len(kb) <= 3) and not case.get("wrapper"):
+        # the operator applied to a RATIONAL-function operand while a symbolically registered function is generated:
+        # alg.register(symbolic=True)(lambda a, b: a.inv() >> b) on (a, b) must be inv(a) >> b
+        try:
+            dinv = Rr.inv(da)
+        except ZeroDivisionError:
+            dinv = None
+        if dinv is not None:
+            if op == "normsq":
+                def f(a):
+                    return a.inv().normsq()
+                args, exp2 = (x,), Rr.normsq(dinv)
+            elif op == "sw":
+                def f(a, b):
+                    return a.inv() >> b
+                args, exp2 = (x, y), Rr.sw(dinv, db)
+            else:
+                def f(a, b):
+                    return a.inv() @ b
+                args, exp2 = (x, y), Rr.proj(dinv, db)
+            r3 = _call(lambda: alg.register(f, symbolic=True)(*args), "composition", op, f"{op} on a.inv() inside alg.register(symbolic=True)")
+            ok, why = kd.elem_equal(kd.to_dict(r3, op=op), exp2)
+            if not ok:
+                raise Violation("composition-vs-reference", op, f"{op} applied to a.inv() inside a function registered with symbolic=True "
+                                f"(keys {ka}" + (f" x {kb}" if kb is not None else "") + f"): {why}",
+                                observed=kd.show(kd.to_dict(r3)), expected=kd.show(exp2))
+            counters["checked:registered-symbolic-rational-operand"] = 1
     fired = bool(support - set(got))
     big = case["mode"] == "generic" and any(isinstance(v, Q) and v.nterms() >= 3 for v in exp.values())
     noncanon = (not S.is_canonical(ka)) or (kb is not None and not S.is_canonical(kb))
@@ -179,7 +207,7 @@ def evaluate(case):
     if fired:
         labels.append("filter-fired")
     key = [cfg["sig"], cfg.get("start"), cfg.get("basis"), op, ka, kb, case["cse"], case.get("symcls"), case["mode"], bool(case.get("wrapper"))]
-    return Info(fired or big, labels, key, sample={"result_keys": sorted(got), "dropped": sorted(support - set(got))} if fired else None)
+    return Info(fired or big, labels, key, counters, sample={"result_keys": sorted(got), "dropped": sorted(support - set(got))} if fired else None)
 
 
 FINDING_PREDICATES = {}
